@@ -28,8 +28,9 @@ def dep_block(features=ALL_FEATURES, default_features=True, with_nvrt=True, extr
 class Workspace:
     """A cargo workspace of shard libs + one runner bin."""
 
-    def __init__(self, name, nshards=16):
+    def __init__(self, name, nshards=16, profile=None):
         self.name = name
+        self.profile = profile or PROFILE
         self.dir = os.path.join(WORK, name)
         self.nshards = nshards
         self.shard_src = {}       # shard index -> text
@@ -87,7 +88,7 @@ class Workspace:
         for e in os.listdir(self.dir):
             if (e.startswith("shard") or e.startswith("s_")) and e not in members:
                 shutil.rmtree(os.path.join(self.dir, e), ignore_errors=True)
-        ws = '[workspace]\nresolver = "2"\nmembers = [%s]\n%s' % (", ".join('"%s"' % m for m in members + ["runner"]), PROFILE)
+        ws = '[workspace]\nresolver = "2"\nmembers = [%s]\n%s' % (", ".join('"%s"' % m for m in members + ["runner"]), self.profile)
         write_if_changed(os.path.join(self.dir, "Cargo.toml"), ws)
         lock = os.path.join(self.dir, "Cargo.lock")
         if not os.path.exists(lock):
